@@ -962,7 +962,11 @@ fn c03_general(ctx: &CaseCtx) -> CaseReport {
         rep.inconclusive.push(format!("panic during the run: {p}"));
     }
     if let Some(c) = c03_ctx(ctx.case_seed, &cfg, &run.events, &view) {
-        mon::c03::check_ok_means_acked(&mut rep, &c);
+        let covered = mon::c03::check_ok_means_acked(&mut rep, &c);
+        if cfg.chaos == duplex::Chaos::None {
+            let keeps = [matches!(cfg.r[0].stop, crate::app::ReaderStop::Never), matches!(cfg.r[1].stop, crate::app::ReaderStop::Never)];
+            mon::c03::check_ok_bytes_delivered(&mut rep, &c, covered, keeps);
+        }
         mon::c03::check_eof(&mut rep, &c);
         mon::c03::check_after_death(&mut rep, &c);
     }
@@ -1392,6 +1396,16 @@ pub fn duplex_causes(case_seed: u64, events: &[crate::events::Event], view: &Wir
 
 /// Common epilogue: hash, events retention.
 pub fn finish(rep: &mut CaseReport, ctx: &CaseCtx, view: &WireView, events: Vec<crate::events::Event>, end_time: u64) {
+    // A connection task that wakes itself for ever without virtual time advancing never lets the
+    // case make progress: whatever property is being checked, that execution violates it (the
+    // harness stops the task; see sim.rs).
+    for e in &events {
+        if let crate::events::Ev::Panic(p) = &e.ev {
+            if p.contains("harness: livelock") {
+                rep.violate(ctx.property, "livelock", "a connection task polls itself for ever without time advancing", p.clone(), Some(e.t));
+            }
+        }
+    }
     rep.trace_hash = view.trace_hash();
     rep.end_time = end_time;
     if ctx.keep_events || !rep.violations.is_empty() {
